@@ -32,12 +32,12 @@ AnyU(vs) == \E i \in DOMAIN vs : IsU(vs[i])
 \* run): such a result is UNDEF, i.e. "no value the model can name", and everything that depends on it is
 \* unspecified (three-valued evaluation).  All operations accept UNDEF operands.  Comparisons never multiply
 \* (continued-fraction comparison), so they are exact for every representable operand.
-SmallB == 32767
-Small(a) == IF IsU(a) THEN FALSE ELSE (Abs(a.n) <= SmallB /\ a.d <= SmallB)
-RAdd(a, b) == IF Small(a) THEN (IF Small(b) THEN NV(a.n * b.d + b.n * a.d, a.d * b.d) ELSE UNDEF) ELSE UNDEF
-RSub(a, b) == IF Small(a) THEN (IF Small(b) THEN NV(a.n * b.d - b.n * a.d, a.d * b.d) ELSE UNDEF) ELSE UNDEF
-RMul(a, b) == IF Small(a) THEN (IF Small(b) THEN NV(a.n * b.n, a.d * b.d) ELSE UNDEF) ELSE UNDEF
-RDiv(a, b) == IF Small(a) THEN (IF Small(b) THEN (IF b.n = 0 THEN UNDEF ELSE NV(a.n * b.d, a.d * b.n)) ELSE UNDEF) ELSE UNDEF
+SmallQB == 32767
+SmallQ(a) == IF IsU(a) THEN FALSE ELSE (Abs(a.n) <= SmallQB /\ a.d <= SmallQB)
+RAdd(a, b) == IF SmallQ(a) THEN (IF SmallQ(b) THEN NV(a.n * b.d + b.n * a.d, a.d * b.d) ELSE UNDEF) ELSE UNDEF
+RSub(a, b) == IF SmallQ(a) THEN (IF SmallQ(b) THEN NV(a.n * b.d - b.n * a.d, a.d * b.d) ELSE UNDEF) ELSE UNDEF
+RMul(a, b) == IF SmallQ(a) THEN (IF SmallQ(b) THEN NV(a.n * b.n, a.d * b.d) ELSE UNDEF) ELSE UNDEF
+RDiv(a, b) == IF SmallQ(a) THEN (IF SmallQ(b) THEN (IF b.n = 0 THEN UNDEF ELSE NV(a.n * b.d, a.d * b.n)) ELSE UNDEF) ELSE UNDEF
 RNeg(a) == IF IsU(a) THEN UNDEF ELSE NV(0 - a.n, a.d)
 \* sign of p/q - r/s for q, s > 0, without multiplication
 RECURSIVE CmpFrac(_,_,_,_)
@@ -49,8 +49,8 @@ CmpFrac(p, q, r, s) ==
                y == r % s
            IN IF x = 0 /\ y = 0 THEN 0 ELSE IF x = 0 THEN 0 - 1 ELSE IF y = 0 THEN 1
               ELSE CmpFrac(s, y, q, x)        \* x/q < y/s  <=>  s/y < q/x
-RLe(a, b) == IF Small(a) /\ Small(b) THEN a.n * b.d <= b.n * a.d ELSE CmpFrac(a.n, a.d, b.n, b.d) <= 0
-RLt(a, b) == IF Small(a) /\ Small(b) THEN a.n * b.d < b.n * a.d ELSE CmpFrac(a.n, a.d, b.n, b.d) < 0
+RLe(a, b) == IF SmallQ(a) /\ SmallQ(b) THEN a.n * b.d <= b.n * a.d ELSE CmpFrac(a.n, a.d, b.n, b.d) <= 0
+RLt(a, b) == IF SmallQ(a) /\ SmallQ(b) THEN a.n * b.d < b.n * a.d ELSE CmpFrac(a.n, a.d, b.n, b.d) < 0
 RMin(a, b) == IF RLe(a, b) THEN a ELSE b
 RMax(a, b) == IF RLe(a, b) THEN b ELSE a
 IsInt(a) == a.d = 1
